@@ -229,3 +229,49 @@ def c04_create_queue(kind: int, n: int) -> bool:
     if q.qsize() != 0:
         return False
     return ok()
+
+
+def c04_prepare(m01: int, m02: int, m12: int, m03: int, m13: int, m23: int) -> bool:
+    """
+    The engine model takes prepare_nodes in closed form: source nodes = no predecessor, single-parent nodes = exactly one
+    DISTINCT predecessor, remaining-predecessor count = number of distinct predecessors (>= 2) -- and graph.successors(n) yields
+    each distinct successor once.  The real prepare_nodes / predecessor_count on a MultiDiGraph with symbolic edge
+    multiplicities (parallel edges of mixed kinds: positional, keyword, plain dependency).
+
+    pre: 0 <= m01 <= 2 and 0 <= m02 <= 2 and 0 <= m12 <= 2 and 0 <= m03 <= 2 and 0 <= m13 <= 2 and 0 <= m23 <= 2
+    post: _
+    """
+    begin()
+    from uberjob._execution.run_function_on_graph import prepare_nodes
+    from uberjob._util.networkx_util import predecessor_count
+    from uberjob.graph import Dependency, Graph, KeywordArg, PositionalArg
+
+    mult = {(0, 1): m01, (0, 2): m02, (1, 2): m12, (0, 3): m03, (1, 3): m13, (2, 3): m23}
+
+    class Nd:
+        def __init__(self, i):
+            self.i = i
+
+    nodes = [Nd(i) for i in range(4)]
+    g = Graph()
+    for n in nodes:
+        g.add_node(n)
+    for (i, j), m in mult.items():
+        for k in range(3):
+            if k < m:
+                g.add_edge(nodes[i], nodes[j], [PositionalArg(i), KeywordArg("k", i), Dependency()][(k + j) % 3])
+    preds = {j: [i for i in range(4) if mult.get((i, j), 0) > 0] for j in range(4)}
+    succs = {i: [j for j in range(4) if mult.get((i, j), 0) > 0] for i in range(4)}
+    src, single, remaining = prepare_nodes(g)
+    if [n.i for n in src] != [j for j in range(4) if not preds[j]]:
+        return False
+    if sorted(n.i for n in single) != [j for j in range(4) if len(preds[j]) == 1]:
+        return False
+    if sorted((n.i, c) for n, c in remaining.items()) != [(j, len(preds[j])) for j in range(4) if len(preds[j]) >= 2]:
+        return False
+    for j in range(4):
+        if predecessor_count(g, nodes[j]) != len(preds[j]):
+            return False
+        if sorted(n.i for n in g.successors(nodes[j])) != succs[j] or len(list(g.successors(nodes[j]))) != len(succs[j]):
+            return False
+    return ok()
